@@ -3,7 +3,7 @@
     harness/props/c10.py). *)
 From Coq Require Import NArith Arith List Bool.
 Import ListNotations.
-From NV Require Import Machine.Dfa Machine.Sem Machine.Chunk.
+From NV Require Import Machine.Dfa Machine.Sem Machine.Chunk Machine.FailPos.
 
 (** OK is returned only after the whole chunk has been consumed, for every machine carrying the
     certificate [no_stuck_ok] (computed per compiled machine) *)
@@ -29,3 +29,16 @@ Theorem c10_fail_absorbing_end : forall D exec evalt d q x, is_fail_state d q ->
   end_call D exec evalt d q x = Some {| f_res := RFail; f_q := q; f_x := x; f_consumed := 0; f_evs := [] |}.
 Proof. exact fail_absorbing_end. Qed.
 Print Assumptions c10_fail_absorbing_end.
+
+(** FAIL is reported at the first offending byte: for every machine carrying the certificate [fail_entry_ok]
+    (computed per compiled machine), a feed call that starts in a state that has not failed
+    - returns OK only with the machine still not failed, and
+    - when it returns FAIL at position k, every byte in front of k was consumed by a machine that had not failed
+      and byte k is the one on which that machine fails, without being consumed ([fails_at]) *)
+Theorem c10_fail_at_first_offending_byte : forall D exec evalt d, fail_entry_ok d = true ->
+  forall bs, Forall (fun b => (b < 256)%N) bs ->
+  forall q x r, is_failb d q = false -> feed_go D exec evalt d bs q x 0 [] = Some r ->
+  (f_res D r = ROk -> is_failb d (f_q D r) = false) /\
+  (f_res D r = RFail -> fails_at D exec evalt d bs q x (f_consumed D r)).
+Proof. exact fail_position. Qed.
+Print Assumptions c10_fail_at_first_offending_byte.
